@@ -2,6 +2,7 @@
 exactly-once acknowledgements), C09 (per-partition order, retry discipline) and
 C19 (batching thresholds, cancellation, stop).
 """
+from afkak.common import FailedPayloadsError
 from harness.base import ClientWorld, F, S, Z
 from ref import refkafka as rk
 
@@ -10,7 +11,7 @@ FACTOR = 1.20205
 
 class Send(object):
     __slots__ = ("i", "topic", "key", "msgs", "d", "fired", "result", "cancelled", "t_send", "t_fired",
-                 "first_wire_step", "wire_steps", "acked", "step_fired", "raised")
+                 "first_wire_step", "wire_steps", "acked", "step_fired", "raised", "call_steps")
 
     def __init__(self, i, topic, key, msgs):
         self.i = i
@@ -28,6 +29,7 @@ class Send(object):
         self.acked = []  # (step, topic, partition, base) of error-0 acknowledgements delivered to the client
         self.step_fired = None
         self.raised = None
+        self.call_steps = []
 
 
 class ProducerWorld(ClientWorld):
@@ -52,6 +54,30 @@ class ProducerWorld(ClientWorld):
         self.max_attempts = kwargs["max_req_attempts"]
         self.retry_interval = kwargs["retry_interval"]
         self.producer = Producer(self.client, **kwargs)
+        self.calls = []  # (step, time, [send indexes], {(topic, partition): [values]}) per client.send_produce_request
+        orig_spr = self.client.send_produce_request
+
+        def spr(payloads=None, *a, **kw):
+            idx_by_tp = self.note_call(payloads or [])
+            d = orig_spr(payloads, *a, **kw)
+
+            def seen(res):
+                # what the client reports back to the producer for this attempt (pass-through observer)
+                from twisted.python.failure import Failure
+                resps = res
+                if isinstance(res, Failure):
+                    resps = res.value.args[0] if res.check(FailedPayloadsError) and res.value.args else []
+                try:
+                    for r in resps or []:
+                        if getattr(r, "error", None) == 0:
+                            for i in idx_by_tp.get((r.topic, r.partition), []):
+                                self.sends[i].acked.append((self.step, r.topic, r.partition, r.offset, None))
+                except TypeError:
+                    pass
+                return res
+            d.addBoth(seen)
+            return d
+        self.client.send_produce_request = spr
         self.sends = []
         self.step = 0
         self.produce_reqs = []  # (step, time, Req, {(topic, partition): [(key, value)]})
@@ -72,8 +98,7 @@ class ProducerWorld(ClientWorld):
             vals = [None if m is None else m.encode("latin-1") for m in msgs]
             s = Send(len(self.sends), topic, key, vals)
             for j, v in enumerate(vals):
-                if v is not None and len(v) > 0:
-                    self.value_owner.setdefault(v, (s.i, j))
+                self.value_owner.setdefault((key, v), (s.i, j))
             s.t_send = self.clock.seconds()
             self.sends.append(s)
             try:
@@ -121,7 +146,8 @@ class ProducerWorld(ClientWorld):
 
     def quiescent(self):
         """Only periodic timers (batch LoopingCall) may remain."""
-        if any(not s.fired for s in self.sends if s.d is not None):
+        if any(not s.fired for s in self.sends if s.d is not None and (
+                s.call_steps or not self.cfg.get("producer", {}).get("batch_send"))):
             return False
         for c in self.clock.pending():
             name = getattr(c.func, "__qualname__", "") or repr(c.func)
@@ -157,7 +183,7 @@ class ProducerWorld(ClientWorld):
         out = []
         seen = set()
         for k, v in kvs:
-            o = self.value_owner.get(v)
+            o = self.value_owner.get((k, v))
             if o is not None and o[0] not in seen and self.sends[o[0]].topic == topic:
                 seen.add(o[0])
                 out.append(self.sends[o[0]])
@@ -171,22 +197,6 @@ class ProducerWorld(ClientWorld):
             self._clock_seen += 1
             if name.startswith("Deferred.callback"):
                 self.retry_delays.append((now, delay, self.step))
-        # acknowledgements delivered in this step
-        if label.startswith("reply:"):
-            cid = int(label.split(":")[1])
-            r = None
-            for q in reversed(self.cluster.journal):
-                if q.cid == cid and q.answered and q.answer is not None:
-                    r = q
-                    break
-            if r is not None and r.parsed["api_key"] == rk.PRODUCE and not getattr(r, "_noted", False):
-                r._noted = True
-                for t in r.answer["topics"]:
-                    for part in t["partitions"]:
-                        if part["error"] == 0:
-                            kvs = self._content_of(r).get((t["topic"], part["partition"]), [])
-                            for s in self._sends_in(t["topic"], kvs):
-                                s.acked.append((self.step, t["topic"], part["partition"], part["offset"], r.broker))
         if not label.startswith("app"):
             if label.split(":")[0] in ("refuse", "drop", "silent", "bclose") or "err=" in label:
                 self.reacted = True
@@ -241,6 +251,74 @@ class ProducerWorld(ClientWorld):
                       "messages at that partition/offset (applied: %r)" % (
                           s.i, res, [(a[2], a[3], a[4], len(a[5])) for a in self.cluster.produce_applied]))
 
+    # ------------------------------------------------------------------ the producer -> client seam
+    def note_call(self, payloads):
+        """One attempt: the producer hands payloads to KafkaClient.send_produce_request (public API)."""
+        content = {}
+        idx = []
+        idx_by_tp = {}
+        for p in payloads:
+            vals = []
+            for m in p.messages or []:
+                if m.attributes & 3:
+                    from afkak.kafkacodec import KafkaCodec
+                    from afkak.codec import gzip_decode, snappy_decode
+                    raw = gzip_decode(m.value) if (m.attributes & 3) == 1 else snappy_decode(m.value)
+                    vals.extend((om.message.key, om.message.value)
+                                for om in KafkaCodec._decode_message_set_iter(raw))
+                else:
+                    vals.append((m.key, m.value))
+            content[(p.topic, p.partition)] = vals
+            for v in vals:
+                o = self.value_owner.get(v)
+                if o is not None:
+                    if o[0] not in idx:
+                        idx.append(o[0])
+                    if o[0] not in idx_by_tp.setdefault((p.topic, p.partition), []):
+                        idx_by_tp[(p.topic, p.partition)].append(o[0])
+        new = [i for i in idx if not self.sends[i].call_steps]
+        for i in idx:
+            self.sends[i].call_steps.append(self.step)
+        self.calls.append((self.step, self.clock.seconds(), idx, content))
+        if self.PROP != "C09":
+            return idx_by_tp
+        if new:
+            for s in self.sends:
+                if s.call_steps and s.i not in idx and not s.fired:
+                    self.viol("batching", "later-batch-dispatched-while-earlier-unresolved",
+                              "send(s) %r were dispatched while send %d of an earlier batch was unresolved" % (
+                                  new, s.i))
+        seen = set()
+        for tp, vals in content.items():
+            last = None
+            for v in vals:
+                o = self.value_owner.get(v)
+                if o is None:
+                    continue
+                if v in seen:
+                    self.viol("order", "message-in-two-payloads-of-one-attempt",
+                              "value %r appears twice in one produce attempt" % (v,))
+                seen.add(v)
+                if last is not None and o < last:
+                    self.viol("order", "send-order-broken-inside-attempt",
+                              "partition %r carries %r (send %d) after a message of send %d" % (tp, v, o[0], last[0]))
+                last = o
+        if self.acks != 0:
+            for i in idx:
+                s = self.sends[i]
+                for (st, t, pn, _off, _b) in s.acked:
+                    if st < self.step:
+                        self.viol("retry", "acknowledged-payload-sent-again",
+                                  "messages of send %d were acknowledged without error (step %d, %s/%d) and are "
+                                  "handed to the client again at step %d" % (s.i, st, t, pn, self.step))
+        for i in idx:
+            s = self.sends[i]
+            if len(s.call_steps) > self.max_attempts:
+                self.viol("retry", "more-attempts-than-configured",
+                          "send %d was attempted %d times, max_req_attempts=%d" % (
+                              s.i, len(s.call_steps), self.max_attempts))
+        return idx_by_tp
+
     # ------------------------------------------------------------------ C09 oracle pieces
     def check_wire(self, req, content):
         if self.PROP != "C09":
@@ -250,42 +328,18 @@ class ProducerWorld(ClientWorld):
         for tp, kvs in content.items():
             last = None
             for k, v in kvs:
-                o = self.value_owner.get(v)
+                o = self.value_owner.get((k, v))
                 if o is None:
                     continue
-                if v in seen_vals:
+                if (k, v) in seen_vals:
                     self.viol("order", "message-in-two-payloads-of-one-request",
-                              "value %r appears twice in one produce request" % (v,))
-                seen_vals.add(v)
+                              "message %r appears twice in one produce request" % ((k, v),))
+                seen_vals.add((k, v))
                 if last is not None and o < last:
                     self.viol("order", "send-order-broken-inside-request",
                               "partition %r carries %r (send %d) after a message of send %d" % (
                                   tp, v, o[0], last[0]))
                 last = o
-        # dispatch of a new batch while an earlier one is unresolved
-        new = [s for tp, kvs in content.items() for s in self._sends_in(tp[0], kvs)
-               if s.first_wire_step == self.step]
-        if new:
-            for s in self.sends:
-                if s.first_wire_step is not None and s.first_wire_step < self.step and not s.fired:
-                    self.viol("batching", "later-batch-dispatched-while-earlier-unresolved",
-                              "send(s) %r first reached the wire while send %d of an earlier batch was unresolved" % (
-                                  [x.i for x in new], s.i))
-        # acknowledged payloads are never sent again
-        if self.acks != 0:
-            for tp, kvs in content.items():
-                for s in self._sends_in(tp[0], kvs):
-                    for (st, t, p, _off, _b) in s.acked:
-                        if st < self.step:
-                            self.viol("retry", "acknowledged-payload-sent-again",
-                                      "messages of send %d were acknowledged without error (step %d, %s/%d) and are "
-                                      "transmitted again at step %d" % (s.i, st, t, p, self.step))
-        # attempts per batch
-        for s in self.sends:
-            if len(s.wire_steps) > self.max_attempts:
-                self.viol("retry", "more-attempts-than-configured",
-                          "send %d was transmitted in %d attempts, max_req_attempts=%d" % (
-                              s.i, len(s.wire_steps), self.max_attempts))
 
     def check_step(self, label):
         if self.PROP == "C09":
@@ -318,11 +372,25 @@ class ProducerWorld(ClientWorld):
                                   "stop() resolved send %d with %r instead of a cancellation error" % (s.i, s.result))
 
     def _check_delays(self):
-        # group by resolution epochs: a batch resolves when every send dispatched so far has fired
+        # batches are the groups of sends first handed to the client together; a batch resolves at the step its
+        # last send fires; retry timers armed from that step on belong to the next epoch (interval reset)
+        batches = {}
+        for (st, _t, idx, _c) in self.calls:
+            for i in idx:
+                if self.sends[i].call_steps and self.sends[i].call_steps[0] == st:
+                    batches.setdefault(st, []).append(i)
+        resolved_steps = []
+        for st, members in batches.items():
+            if all(self.sends[i].fired for i in members):
+                resolved_steps.append(max(self.sends[i].step_fired for i in members))
+        # sends that fail before any client call (partition lookup exhausted) also end an epoch
+        for s in self.sends:
+            if s.fired and not s.call_steps and not s.cancelled:
+                resolved_steps.append(s.step_fired)
         expected = self.retry_interval
         last_epoch = None
         for (now, delay, step) in self.retry_delays:
-            epoch = sum(1 for t in self.batch_resolved_times if t[1] < step)
+            epoch = sum(1 for r in resolved_steps if r <= step)
             if epoch != last_epoch:
                 expected = self.retry_interval
                 last_epoch = epoch
@@ -336,16 +404,10 @@ class ProducerWorld(ClientWorld):
             expected = expected * FACTOR
 
     # ------------------------------------------------------------------ explorer protocol
-    def apply(self, label):
-        pending_before = [s for s in self.sends if s.first_wire_step is not None and not s.fired]
-        ClientWorld.apply(self, label)
-        if pending_before and all(s.fired for s in pending_before):
-            if all(s.fired for s in self.sends if s.first_wire_step is not None):
-                self.batch_resolved_times.append((self.clock.seconds(), self.step - 1))
-
     def finish(self, horizon):
         for s in self.sends:
-            if s.d is not None and not s.fired:
+            if s.d is not None and not s.fired and (s.call_steps or self.stop_called_step is not None or
+                                                    not self.cfg.get("producer", {}).get("batch_send")):
                 self.viol("exactly-once", "send-never-resolves%s" % ("-horizon" if horizon else ""),
                           "send %d (%s) never resolved (schedule %r)" % (s.i, s.topic, self.trace[-12:]))
         if self.PROP == "C09":
@@ -354,10 +416,10 @@ class ProducerWorld(ClientWorld):
                 last = None
                 seen = set()
                 for (_off, _k, v) in log.all_leaves():
-                    o = self.value_owner.get(v)
-                    if o is None or v in seen:
+                    o = self.value_owner.get((_k, v))
+                    if o is None or (_k, v) in seen:
                         continue
-                    seen.add(v)
+                    seen.add((_k, v))
                     if last is not None and o < last:
                         self.viol("order", "send-order-broken-in-log",
                                   "log of %r stores %r (send %d) after a message of send %d" % (tp, v, o[0], last[0]))
